@@ -52,6 +52,7 @@ func gen(t *rapid.T) sw.Scenario {
 			sc.Ops = append(sc.Ops, o)
 		}
 	}
+	sc.GenVia(t)
 	return sc
 }
 
@@ -59,7 +60,7 @@ func run(sc sw.Scenario, dir string) world.Verdict {
 	return sw.InBubble(func() world.Verdict {
 		root, _ := os.MkdirTemp(dir, "c08")
 		defer os.RemoveAll(root)
-		w, err := sw.New(world.NodeOpts{ChainID: "c08-chain", InitialHeight: sc.InitialHeight, RootDir: root, MempoolTTL: sc.MempoolTTL, MaxPending: sc.MaxPending})
+		w, err := sw.New(world.NodeOpts{ChainID: "c08-chain", InitialHeight: sc.InitialHeight, RootDir: root, MempoolTTL: sc.MempoolTTL, MaxPending: sc.MaxPending, ViaDAClient: sc.ViaClient, DAClientLimit: sc.ClientLimit, Prometheus: sc.Prometheus})
 		if err != nil {
 			return world.Fail("C08/start", "NewManager failed: %v", err)
 		}
